@@ -1,7 +1,7 @@
 """Plain pytest replays of the defects found by the checks and repaired in /repo (DESIGN.md section 7).
 They need no explorer: run with   PYTHONPATH=<tree under test> /venv/bin/python -m pytest /verif/tests -q
 Each test fails on the tree before the corresponding `fix:` commit and passes after it."""
-import io, os
+import contextlib, io, os
 import numpy as np
 import pytest
 
@@ -159,3 +159,27 @@ def test_F18_tensormap_strain_follows_new_ubi():
         T.UBI = b.copy()
         e = T.eps_sample
     assert abs(e[0, 0, 0, 0, 0] - 0.1) < 1e-9
+
+
+def test_F19_peaks_table_for_a_scan_without_overlaps(tmp_path):
+    import h5py
+    from ImageD11.sinograms import properties as PR
+    fn = str(tmp_path / "s.h5")
+    frames = [([1], [1]), ([], []), ([0, 0, 2, 2], [0, 2, 0, 2])]          # nothing overlaps between frames
+    with h5py.File(fn, "w") as h:
+        g = h.create_group("1.1")
+        g.attrs["nframes"] = 3; g.attrs["shape0"] = 4; g.attrs["shape1"] = 4
+        g["row"] = np.array(sum((f[0] for f in frames), []), np.uint16)
+        g["col"] = np.array(sum((f[1] for f in frames), []), np.uint16)
+        g["intensity"] = np.arange(10, 60, 10).astype(np.float32)
+        g["nnz"] = np.array([len(f[0]) for f in frames], np.int32)
+
+    class DS:
+        scans = ["1.1"]
+        omega = np.array([[10.0, 20.0, 30.0]])
+        dty = np.zeros((1, 3))
+    with contextlib.redirect_stdout(io.StringIO()):
+        pk = PR.pks_table_from_scan(fn, DS, 0)
+        merged = pk.pk2dmerge(DS.omega, DS.dty)
+    assert sorted(merged["Number_of_pixels"].tolist()) == [1.0] * 5
+    assert sorted(merged["sum_intensity"].tolist()) == [10.0, 20.0, 30.0, 40.0, 50.0]
